@@ -87,6 +87,45 @@ func searchNormalForm(p *core.Prog, c0 *core.Ctx, kf *core.KnownFindings, runAt 
 			chainGroups = append(chainGroups, grp)
 		}
 	}
+	// the helpers one function calls, together (a long function split into steps: the rule needs all of them back)
+	var callerNames []string
+	for name := range callees {
+		callerNames = append(callerNames, name)
+	}
+	sort.Strings(callerNames)
+	for _, name := range callerNames {
+		seen := map[string]bool{}
+		var grp []string
+		var add func(x string, d int)
+		add = func(x string, d int) {
+			for _, h := range callees[x] {
+				if !seen[h] && len(grp) < 10 {
+					seen[h] = true
+					grp = append(grp, h)
+					hb := h
+					if i := strings.Index(h, "@"); i > 0 {
+						hb = h[:i]
+					}
+					if d < 3 {
+						add(hb, d+1)
+					}
+				}
+			}
+		}
+		add(name, 0)
+		if len(grp) > 1 {
+			sort.Strings(grp)
+			dup := false
+			for _, g := range chainGroups {
+				if strings.Join(g, ",") == strings.Join(grp, ",") {
+					dup = true
+				}
+			}
+			if !dup {
+				chainGroups = append(chainGroups, grp)
+			}
+		}
+	}
 	// call sites of exported functions ("callee@caller") are tried after the unexported helpers: dissolving a
 	// helper is what undoes a refactoring, while inlining an exported constructor into another one also moves the
 	// checks of the first into the second and can satisfy a stem with the wrong function's code (a local optimum
